@@ -376,6 +376,7 @@ type ejection struct {
 	heap     uint64
 	maxAlloc uint64
 	before   map[int][]collect.VerifTraceInfo
+	stalled  map[int]bool // workers that were parked when the memory check ran
 }
 
 func traceIDFor(seed uint64, idx int) string {
@@ -1120,7 +1121,13 @@ func (w *worldA) hooks() {
 		if strings.Contains(tk.Key, "monitor") && w.heapNext > 0 {
 			ma := uint64(w.cfg.GetCollectionConfig().GetMaxAlloc())
 			if ma > 0 && w.heapNext >= ma {
-				w.pendingEj = &ejection{at: time.Now(), step: w.out.Steps, heap: w.heapNext, maxAlloc: ma, before: w.snapshotBuffers()}
+				w.pendingEj = &ejection{at: time.Now(), step: w.out.Steps, heap: w.heapNext, maxAlloc: ma, before: w.snapshotBuffers(), stalled: map[int]bool{}}
+				for i := 0; i < w.nWorkers; i++ {
+					// a stalled worker takes its share later, from whatever it holds then
+					if w.tr.Parked(fmt.Sprintf("collect_worker/%d", i)) {
+						w.pendingEj.stalled[i] = true
+					}
+				}
 				w.ejections = append(w.ejections, w.pendingEj)
 				w.out.Fault("memory_pressure_reading")
 				// all workers eject at once and draw from the shared sampler
